@@ -1,9 +1,9 @@
-\* one device type x 3 minors (totals 0 / 100), 2 pods, requests 50 / 100 percent of 1..2 devices; complete state space
+\* one device type x 3 minors, 3 pods, requests 50 / 100 percent of 1..2 devices; complete state space
 SPECIFICATION MSpec
 CONSTANTS
   Types = {"gpu"}
   Minors = {0, 1, 2}
-  Pods = {"p0", "p1"}
+  Pods = {"p0", "p1", "p2"}
   MaxCnt = 2
   Amounts = {50, 100}
   DupCheck = TRUE
